@@ -203,7 +203,10 @@ def generate(repo):
     raw = _func_body(rc, "reb_simulation_integrate_raw") or ""
     # fixes/C08-absorbed-step-error.diff: after reb_simulation_step, `r->t==t_before_step && r->dt==dt_before_step` -> GENERIC_ERROR
     has_guard = bool(re.search(r"reb_simulation_step\(r\);\s*if\s*\([^)]*r->t\s*==\s*\w+[^)]*r->dt\s*==\s*\w+", raw))
-    return "\n".join(L) + "\n", dict(enum=enum, table=table, problems=problems, kinds=kinds, lineno=lineno, has_progress_guard=has_guard)
+    integ_fn = _func_body(rc, "reb_simulation_integrate") or ""
+    has_nan_guard = bool(re.search(r"isnan\s*\(\s*tmax\s*\)", integ_fn + raw))
+    return "\n".join(L) + "\n", dict(enum=enum, table=table, problems=problems, kinds=kinds, lineno=lineno, has_progress_guard=has_guard,
+                                    has_nan_guard=has_nan_guard)
 
 
 if __name__ == "__main__":
